@@ -128,6 +128,9 @@ def decl_module(d, ops_wanted):
     lines.append(struct)
     lines.append("    type Inner = %s;" % inner_c)
     lines.append("    type TT = %s;" % TT)
+    if "Deserialize" in info.traits:
+        lines.append("    #[derive(serde::Deserialize)] struct HolderT { a: TT }")
+        lines.append("    #[derive(serde::Deserialize)] struct HolderI { a: Inner }")
     if info.has_validation:
         if info.custom:
             lines.append("    fn ename(e: &CErr) -> String { format!(\"errc {}\", e.0) }")
@@ -178,6 +181,53 @@ def decl_module(d, ops_wanted):
         arms.append('"msgs" => guard(|| { let v: Vec<String> = vec![%s]; v.join(" | ") }),' % parts)
     if "FromStr" in info.traits and info.has_validation:
         arms.append('"from_str_msg" => guard(|| { let s = <String as Arg>::parse(arg); match TT::from_str(s.as_str()) { Ok(_) => "ok".to_string(), Err(e) => e.to_string() } }),')
+    if "Deserialize" in info.traits:
+        cs = ("match TT::try_new(%s) { Ok(v) => ok(v.into_inner()), Err(e) => ename(&e) }" if info.has_validation
+              else "ok(TT::new(%s).into_inner())")
+        mko = "TT::try_new(%s).ok()" if info.has_validation else "Some(TT::new(%s))"
+        sername = T
+        for fmt, parse_t, parse_i, argp in (
+                ("json", "serde_json::from_str::<TT>(&doc)", "serde_json::from_str::<Inner>(&doc)", "let doc = <String as Arg>::parse(arg);"),
+                ("ron", "ron::from_str::<TT>(&format!(\"%s({})\", doc))" % sername, "ron::from_str::<Inner>(&doc)", "let doc = <String as Arg>::parse(arg);"),
+                ("mp", "rmp_serde::from_slice::<TT>(&doc)", "rmp_serde::from_slice::<Inner>(&doc)", "let doc = bytes_arg(arg);")):
+            arms.append('"de_%s" => guard(|| { %s let r = %s; let i = %s; '
+                        'let exp = match &i { Ok(x) => { let x = x.clone(); %s }, Err(_) => "de_err".to_string() }; '
+                        'let oracle = match &i { Ok(x) => x.show(), Err(_) => "none".to_string() }; '
+                        'let got = match r { Ok(v) => ok(v.into_inner()), Err(e) => format!("de_err {}", e) }; '
+                        'format!("{} ## {} ## {}", got, oracle, exp) }),' % (fmt, argp, parse_t, parse_i, cs % "x"))
+        # nested positions (JSON): Vec, Option, struct field, map value
+        arms.append('"de_json_vec" => guard(|| { let doc = <String as Arg>::parse(arg); '
+                    'let r = serde_json::from_str::<Vec<TT>>(&doc).ok().map(|v| v.into_iter().map(|t| t.into_inner().show()).collect::<Vec<_>>().join(";")); '
+                    'let e = serde_json::from_str::<Vec<Inner>>(&doc).ok().and_then(|xs| xs.into_iter().map(|x| %s.map(|t| t.into_inner().show())).collect::<Option<Vec<_>>>()).map(|v| v.join(";")); '
+                    'format!("{:?} ## - ## {:?}", r, e) }),' % (mko % "x"))
+        arms.append('"de_json_opt" => guard(|| { let doc = <String as Arg>::parse(arg); '
+                    'let r = serde_json::from_str::<Option<TT>>(&doc).ok().map(|v| v.map(|t| t.into_inner().show())); '
+                    'let e = serde_json::from_str::<Option<Inner>>(&doc).ok().and_then(|o| match o { None => Some(None), Some(x) => %s.map(|t| Some(t.into_inner().show())) }); '
+                    'format!("{:?} ## - ## {:?}", r, e) }),' % (mko % "x"))
+        arms.append('"de_json_struct" => guard(|| { let doc = <String as Arg>::parse(arg); '
+                    'let r = serde_json::from_str::<HolderT>(&doc).ok().map(|h| h.a.into_inner().show()); '
+                    'let e = serde_json::from_str::<HolderI>(&doc).ok().and_then(|h| %s.map(|t| t.into_inner().show())); '
+                    'format!("{:?} ## - ## {:?}", r, e) }),' % (mko % "h.a"))
+        arms.append('"de_json_map" => guard(|| { let doc = <String as Arg>::parse(arg); '
+                    'let r = serde_json::from_str::<std::collections::BTreeMap<String, TT>>(&doc).ok().map(|m| m.into_iter().map(|(k, t)| format!("{}={}", k, t.into_inner().show())).collect::<Vec<_>>().join(";")); '
+                    'let e = serde_json::from_str::<std::collections::BTreeMap<String, Inner>>(&doc).ok().and_then(|m| m.into_iter().map(|(k, x)| %s.map(|t| format!("{}={}", k, t.into_inner().show()))).collect::<Option<Vec<_>>>()).map(|v| v.join(";")); '
+                    'format!("{:?} ## - ## {:?}", r, e) }),' % (mko % "x"))
+        if "Serialize" in info.traits:
+            arms.append('"ser" => guard(|| { let x = <Inner as Arg>::parse(arg); let t = match %s { Some(t) => t, None => return "rejected".to_string() }; '
+                        'let i: Inner = %s.unwrap().into_inner(); let mut out = String::new(); '
+                        'let jt = serde_json::to_string(&t); let ji = serde_json::to_string(&i); '
+                        'out.push_str(&format!("json={} ", match (&jt, &ji) { (Ok(a), Ok(b_)) => b(a == b_), (Err(_), Err(_)) => "1", _ => "0" })); '
+                        'let mt = rmp_serde::to_vec(&t); let mi = rmp_serde::to_vec(&i); '
+                        'out.push_str(&format!("mp={} ", match (&mt, &mi) { (Ok(a), Ok(b_)) => b(a == b_), (Err(_), Err(_)) => "1", _ => "0" })); '
+                        'let rt = ron::to_string(&t); let ri = ron::to_string(&i); '
+                        'out.push_str(&format!("ron={} ", match (&rt, &ri) { (Ok(a), Ok(b_)) => b(*a == format!("%s({})", b_) || *a == format!("({})", b_)), (Err(_), Err(_)) => "1", _ => "0" })); '
+                        'if let (Ok(a), Ok(bi)) = (&jt, &ji) { if let Ok(back) = serde_json::from_str::<Inner>(bi) { if back.same(&i) { '
+                        'out.push_str(&format!("rt_json={} ", match serde_json::from_str::<TT>(a) { Ok(v) => b(v.into_inner().same(&i)), Err(_) => "0" })); } } } '
+                        'if let (Ok(a), Ok(bi)) = (&mt, &mi) { if let Ok(back) = rmp_serde::from_slice::<Inner>(bi) { if back.same(&i) { '
+                        'out.push_str(&format!("rt_mp={} ", match rmp_serde::from_slice::<TT>(a) { Ok(v) => b(v.into_inner().same(&i)), Err(_) => "0" })); } } } '
+                        'if let (Ok(a), Ok(bi)) = (&rt, &ri) { if let Ok(back) = ron::from_str::<Inner>(bi) { if back.same(&i) { '
+                        'out.push_str(&format!("rt_ron={} ", match ron::from_str::<TT>(a) { Ok(v) => b(v.into_inner().same(&i)), Err(_) => "0" })); } } } '
+                        'out.trim_end().to_string() }),' % (mko % "x.clone()", mko % "x.clone()", sername))
     mk = "TT::try_new(%s).ok()" if info.has_validation else "Some(TT::new(%s))"
     # ---- comparison traits on pairs (C12, C13)
     cmpf = []
